@@ -485,12 +485,100 @@ Section Structure.
         rewrite skip_ws_app by apply sep_ws.
         unfold jstring at 1. cbn [app]. rewrite skip_ws_head by reflexivity.
         change (34 =? 125) with false. cbv iota.
-        pose proof (pmembers_ok r (k, x) (S n) f (sep (snd lay) (S n)) (sep (snd lay) n) rest) as HM.
-        cbn [member_text] in HM. unfold member_text in HM at 1. unfold jstring in HM at 1. cbn [app] in HM.
-        fold (member_text (S n)) in *.
-        change (fun kv : list Z * jvalue => let (k0, x0) := kv in jstring k0 ++ [58; 32] ++ jp lay (S n) x0)
-          with (member_text (S n)) in *.
-        rewrite HM; try assumption; try apply sep_ws; [reflexivity|].
-        unfold jstring in Hlen. cbn [app] in Hlen. lia.
+        change (2 + length (sep (snd lay) (S n) ++ member_text (S n) (k, x) ++
+                  flat_map (fun t => 44%Z :: sep (snd lay) (S n) ++ t) (map (member_text (S n)) r)) +
+                length (sep (snd lay) n) < S f)%nat in Hlen.
+        assert (HM : pmembers j5 f (sep (snd lay) (S n) ++ member_text (S n) (k, x) ++
+                       flat_map (fun t => 44 :: sep (snd lay) (S n) ++ t) (map (member_text (S n)) r) ++
+                       sep (snd lay) n ++ 125 :: rest) = Some ((k, x) :: r, rest)).
+        { apply pmembers_ok; try apply sep_ws; [exact IHk|exact Hwf|lia]. }
+        match goal with |- match ?A with _ => _ end = _ =>
+          assert (E : A = Some ((k, x) :: r, rest)) by exact HM; rewrite E; reflexivity end.
   Qed.
 End Structure.
+
+(* ================================================================== canonical form *)
+
+Lemma forallb_ins : forall p kv l, forallb p (ins_member kv l) = p kv && forallb p l.
+Proof.
+  intros p kv. induction l as [|h t IH]; cbn [ins_member forallb]; [reflexivity|].
+  destruct (zlist_leb (fst kv) (fst h)); cbn [forallb]; [reflexivity|].
+  rewrite IH. destruct (p h), (p kv); reflexivity.
+Qed.
+
+Lemma forallb_sort : forall p l, forallb p (sort_members l) = forallb p l.
+Proof.
+  intros p. induction l as [|h t IH]; [reflexivity|].
+  unfold sort_members in *. cbn [fold_right forallb]. rewrite forallb_ins, IH. reflexivity.
+Qed.
+
+Lemma jwfb_canon : forall j5 v, jwfb j5 v = true -> jwfb j5 (canon v) = true.
+Proof.
+  intros j5. induction v as [| b | t | s | l IHl | kvs IHk] using jvalue_ind2; intros H; cbn [canon jwfb] in *; auto.
+  - induction l as [|x r IHr]; [reflexivity|].
+    inversion IHl; subst. cbn [map forallb] in *. apply andb_true_iff in H. destruct H as [Hx Hr].
+    apply andb_true_iff. split; auto.
+  - rewrite forallb_sort.
+    induction kvs as [|[k x] r IHr]; [reflexivity|].
+    inversion IHk; subst. cbn [map forallb snd] in *. apply andb_true_iff in H. destruct H as [Hx Hr].
+    apply andb_true_iff in Hx. destruct Hx as [Hk Hx].
+    apply andb_true_iff. split; [apply andb_true_iff; split; auto|auto].
+Qed.
+
+(* ================================================================== the property *)
+
+Lemma parse_print : forall j5 lay v, jwfb j5 v = true -> parse_doc j5 (jp lay 0 v) = Some v.
+Proof.
+  intros j5 lay v H. unfold parse_doc.
+  pose proof (pval_jp j5 lay v H 0%nat (S (length (jp lay 0 v))) [] [] eq_refl eq_refl (Nat.lt_succ_diag_r _)) as E.
+  cbn [app] in E. rewrite app_nil_r in E. rewrite E. reflexivity.
+Qed.
+
+(* JSON: for every layout and every document of the domain - any nesting, any strings (all code points, lone
+   surrogates, never a high surrogate immediately followed by a low one), well-formed number tokens - the
+   printed text parses back to the document (entries of mappings in the printer's sorted order). *)
+Theorem C12_json_all : forall lay v, json_domain v -> jparse (jprint lay v) = Some (canon v).
+Proof.
+  intros lay v H. unfold json_domain, json_domainb in H. apply andb_true_iff in H. destruct H as [H _].
+  unfold jparse, jprint. apply parse_print. apply jwfb_canon. exact H.
+Qed.
+
+(* JSON5 (the json5 library keeps escaped surrogate pairs apart): holds for documents without astral code points *)
+Theorem C12_json5_bmp : forall lay v, json5_domain v -> j5parse (jprint lay v) = Some (canon v).
+Proof.
+  intros lay v H. unfold json5_domain, json5_domainb in H. apply andb_true_iff in H. destruct H as [H _].
+  unfold j5parse, jprint. apply parse_print. apply jwfb_canon. exact H.
+Qed.
+
+(* ... and fails for a document of the JSON domain containing U+1F600 (D17) *)
+Theorem C12_json5_astral_refuted :
+  exists lay v, json_domain v /\ j5parse (jprint lay v) <> Some (canon v).
+Proof. exists (false, false), (JStr [128512]). split; [reflexivity|]. vm_compute. discriminate. Qed.
+
+(* the string codec on its own, full strength (JSON): escape then unescape is the identity on every string of
+   the domain; the hypothesis is necessary (a high surrogate followed by a low one is recombined) *)
+Theorem C12_json_string_codec : forall s rest, str_okb false s = true ->
+  pstring false (escape_string s ++ 34 :: rest) = Some (s, rest).
+Proof. intros. apply pstring_escape. assumption. Qed.
+
+Theorem C12_json_string_pair_refuted :
+  exists s, forallb cp_ok s = true /\ pstring false (escape_string s ++ [34]) <> Some (s, []).
+Proof. exists [55357; 56832]. split; [reflexivity|]. vm_compute. discriminate. Qed.
+
+(* ---- the hypotheses are satisfiable by non-trivial values ---- *)
+Definition example_doc : jvalue :=
+  JObj [([98], JArr [JNum [49; 101; 43; 49; 54]; JArr []; JObj []; JNum [45; 48; 46; 48];
+                     JStr [113; 34; 92; 10; 0; 127; 233; 8232; 65535; 128512; 56832; 55296; 55357]]);
+        ([97; 128512], JBool true); ([], JNull);
+        ([99], JObj [([122], JArr [JArr [JArr [JStr []]]]); ([121], JNum [49; 56; 52; 52; 54; 55; 52; 52; 48; 55; 51; 55; 48; 57; 53; 53; 49; 54; 49; 54])])].
+
+Example C12_json_domain_inhabited : json_domain example_doc /\ canon example_doc <> example_doc.
+Proof. split; [reflexivity|]. vm_compute. discriminate. Qed.
+
+Definition example_doc5 : jvalue :=
+  JObj [([98], JArr [JNum [49]; JStr [113; 34; 92; 10; 0; 127; 233; 8232; 65535; 55357; 56832]]); ([97], JArr [])].
+Example C12_json5_domain_inhabited : json5_domain example_doc5 /\ canon example_doc5 <> example_doc5.
+Proof. split; [reflexivity|]. vm_compute. discriminate. Qed.
+
+Example C12_json_example : forall lay, jparse (jprint lay example_doc) = Some (canon example_doc).
+Proof. intros lay. apply C12_json_all. reflexivity. Qed.
